@@ -44,3 +44,37 @@ Example C19_links_of_the_recorded_defect :
   | _ => False
   end.
 Proof. vm_compute. split; reflexivity. Qed.
+
+(* At the level of the links: the transcription of Segment::reverseSlots, run on a well-formed chain without marks whose ends ARE
+   m_first and m_last, reverses exactly that chain — its links afterwards are those of the reversed list, m_first / m_last are swapped,
+   no other slot's links change — and the pair of reversals positionSlots makes restores everything.  The recorded defects are
+   exactly the calls that break the premise (a last slot that is not on the chain headed by m_first). *)
+From GR Require Import Proofs.LinePtrProofs.
+Theorem C19_reversal_reverses_the_chain : forall marks s l,
+  (2 <= length l)%nat -> NoDup l -> (forall a, In a l -> a < length (p_next s) /\ a < length (p_prev s))%nat -> unmarked marks l ->
+  links_fwd (p_next s) (p_prev s) l None -> p_first s = hd_error l -> p_last s = hd_error (rev l) ->
+  exists s', preverse marks s = POk s' /\ links_fwd (p_next s') (p_prev s') (rev l) None
+             /\ p_first s' = hd_error (rev l) /\ p_last s' = hd_error l
+             /\ (forall a, ~ In a l -> getp (p_next s') a = getp (p_next s) a /\ getp (p_prev s') a = getp (p_prev s) a)
+             /\ length (p_next s') = length (p_next s) /\ length (p_prev s') = length (p_prev s).
+Proof. exact preverse_reverses_chain. Qed.
+Print Assumptions C19_reversal_reverses_the_chain.
+Theorem C19_two_reversals_restore_the_links : forall marks s l,
+  (2 <= length l)%nat -> NoDup l -> (forall a, In a l -> a < length (p_next s) /\ a < length (p_prev s))%nat -> unmarked marks l ->
+  links_fwd (p_next s) (p_prev s) l None -> p_first s = hd_error l -> p_last s = hd_error (rev l) ->
+  exists s' s'', preverse marks s = POk s' /\ preverse marks s' = POk s'' /\ links_fwd (p_next s'') (p_prev s'') l None
+                 /\ p_first s'' = p_first s /\ p_last s'' = p_last s
+                 /\ (forall a, ~ In a l -> getp (p_next s'') a = getp (p_next s) a /\ getp (p_prev s'') a = getp (p_prev s) a).
+Proof. exact preverse_twice_restores. Qed.
+Print Assumptions C19_two_reversals_restore_the_links.
+(* non-vacuity: the second line [4..9 without the mark 9: 4,5,6,7,8] of a two-line state meets the premises *)
+Example C19_reversal_premises_hold :
+  let nx := [Some 1; Some 2; Some 3; None; Some 5; Some 6; Some 7; Some 8; None]%nat in
+  let pv := [None; Some 0; Some 1; Some 2; None; Some 4; Some 5; Some 6; Some 7]%nat in
+  let s := mkp nx pv (Some 4%nat) (Some 8%nat) in
+  let l := [4; 5; 6; 7; 8]%nat in
+  NoDup l /\ links_fwd nx pv l None /\ p_first s = hd_error l /\ p_last s = hd_error (rev l) /\ unmarked [] l.
+Proof.
+  cbv zeta. split; [repeat constructor; cbn; intuition discriminate|]. split; [cbn; intuition reflexivity|].
+  split; [reflexivity|]. split; [reflexivity|]. intros a _. unfold is_mark. destruct a; reflexivity.
+Qed.
